@@ -9,7 +9,7 @@ balanceBlock come into being and what leaves the process.
   `MinMtime` = now − BlobSignatureTTL; `addCollection`: replication_desired or, when null, the
   cluster default; the storage classes of the collection *as fetched* — `EachCollection`
   (collection.go) names the attributes it wants in `Select`, and an attribute that is not selected
-  arrives empty (`selClasses`).
+  arrives empty (`selClasses`; finding F05b, repaired: the attribute is selected now).
 * balance.go `Run`: CheckSanityLate (no collection / nothing desired / default replication < 1 ⇒
   nothing is sent), CommitPulls / CommitTrash only when the run options say so.
 -/
@@ -41,12 +41,20 @@ structure Coll where
   blocks : List Nat          -- the block locators of the manifest, in order
   deriving DecidableEq, Repr
 
-/-- the attributes `EachCollection` asks the API server for (`Select`; Tie.C05.tie_select) -/
+/-- the attributes `EachCollection` asks the API server for (`Select`; Tie.C05.tie_select) — the code
+after the fix: commit for F05b -/
 def selectedAttrs : List String :=
+  ["uuid", "unsigned_manifest_text", "modified_at", "portable_data_hash", "replication_desired",
+   "storage_classes_desired"]
+
+/-- does keep-balance receive `storage_classes_desired`? -/
+def selClassesNow : Bool := selectedAttrs.contains "storage_classes_desired"
+
+/-- the select list before the fix: commit for F05b (kept for the regression theorems) -/
+def selectedAttrsOld : List String :=
   ["uuid", "unsigned_manifest_text", "modified_at", "portable_data_hash", "replication_desired"]
 
-/-- does keep-balance receive `storage_classes_desired`? (Not in the current code: finding F05b.) -/
-def selClassesNow : Bool := selectedAttrs.contains "storage_classes_desired"
+def selClassesOld : Bool := selectedAttrsOld.contains "storage_classes_desired"
 
 /-- `coll.StorageClassesDesired` as keep-balance receives it: empty unless the attribute is selected -/
 def fetchedClasses (selClasses : Bool) (c : Coll) : List Class := if selClasses then c.classes else []
